@@ -781,6 +781,7 @@ def error_norm_scale_then_rms(*, norm_order=None) -> Callable:
     """
 
     def normalize(error_abs, reference, atol, rtol):
+        _error_if_tolerance_shape_mismatch(atol, rtol, expected=np.shape(reference))
         scale = atol + rtol * np.abs(reference)
         error_rel = error_abs / scale
         return rms(error_rel)
@@ -801,6 +802,7 @@ def error_norm_rms_then_scale(norm_order=None) -> Callable:
     """
 
     def normalize(error_abs, reference, atol, rtol):
+        _error_if_tolerance_shape_mismatch(atol, rtol, expected=())
         norm_abs = rms(error_abs)
         norm_ref = rms(reference)
         return norm_abs / (atol + rtol * norm_ref)
@@ -809,6 +811,16 @@ def error_norm_rms_then_scale(norm_order=None) -> Callable:
         return linalg.vector_norm(s, order=norm_order) / np.sqrt(s.size)
 
     return normalize
+
+
+def _error_if_tolerance_shape_mismatch(atol, rtol, /, *, expected):
+    """Raise a ValueError if a tolerance is neither a scalar nor shaped as expected."""
+    for name, tol in (("atol", atol), ("rtol", rtol)):
+        if np.shape(tol) not in [(), expected]:
+            msg = f"The tolerance '{name}' has an unexpected shape."
+            msg += f" Expected: () or {expected}."
+            msg += f" Received: {np.shape(tol)}."
+            raise ValueError(msg)
 
 
 class ErrorEstimator:
